@@ -38,8 +38,11 @@ def jobs(tier):
     if tier == "quick":
         return [J("T5", n) for n in (7, 8, 9, 10)] + [J("B|ref-raw-adj|3", 8), J("B|ref-raw-adj|3", 9), J("T1", 18, flagsets=(0,))] + \
             [{"name": "B|lookup|0-13-14", "h": "e2e", "params": {"template": "B|lookup|0", "lens": [13, 14], "flagsets": [0, 1]}, "split": 16, "chunk": 30, "max_paths": 300000},
-             {"name": "T8-8-8", "h": "e2e", "params": {"template": "T8", "lens": [8, 8], "flagsets": [0]}, "split": 16, "chunk": 30, "max_paths": 300000}]
-    out = [J("T5", n) for n in (7, 8, 9, 10, 11, 12)] + [J("T1", n) for n in (17, 18, 19, 20, 21)] + [J("T2", 17), J("T2", 19)]
+             {"name": "T8-8-8", "h": "e2e", "params": {"template": "T8", "lens": [8, 8], "flagsets": [0]}, "split": 16, "chunk": 30, "max_paths": 300000},
+             # a long stream: eleven packets one byte too long in a row, one clean, one too long - the n-th is accounted for like the first
+             {"name": "TI-many", "h": "e2e", "params": {"template": "TI", "lens": [10] * 11 + [9, 10], "flagsets": [0, 1]}, "split": 4, "chunk": 30, "max_paths": 300000}]
+    out = [{"name": "TI-many", "h": "e2e", "params": {"template": "TI", "lens": [10] * 11 + [9, 10] + [8] * 12 + [9], "flagsets": [0, 1]}, "split": 4, "chunk": 30, "max_paths": 300000}]
+    out += [J("T5", n) for n in (7, 8, 9, 10, 11, 12)] + [J("T1", n) for n in (17, 18, 19, 20, 21)] + [J("T2", 17), J("T2", 19)]
     for src in ("fixed-odd", "lookup", "ref-raw-adj", "ref-cal"):
         for off in (0, 3, 7):
             out += [J(f"B|{src}|{off}", n) for n in (8, 9, 14)]
